@@ -779,6 +779,66 @@ func (fr *Frame) autoInvariants(li *loopInfo) []func(get func(*ssa.Phi) Term) (T
 			}
 			dir = d
 		}
+		// bounds taken from comparisons in the header: phi (or phi+k) compared with a value
+		// defined outside the loop yields the candidates phi < X and phi <= X (or > / >=)
+		for _, hi := range hdr.Instrs {
+			cmp, ok := hi.(*ssa.BinOp)
+			if !ok {
+				continue
+			}
+			var other ssa.Value
+			less := false
+			isPhiish := func(v ssa.Value) bool {
+				if v == ssa.Value(phi) {
+					return true
+				}
+				if bo, ok := v.(*ssa.BinOp); ok && bo.Block() == hdr && bo.X == ssa.Value(phi) {
+					if _, isC := bo.Y.(*ssa.Const); isC && (bo.Op == token.ADD || bo.Op == token.SUB) {
+						return true
+					}
+				}
+				return false
+			}
+			switch cmp.Op {
+			case token.LSS, token.LEQ:
+				if isPhiish(cmp.X) {
+					other, less = cmp.Y, true
+				} else if isPhiish(cmp.Y) {
+					other, less = cmp.X, false
+				}
+			case token.GTR, token.GEQ:
+				if isPhiish(cmp.X) {
+					other, less = cmp.Y, false
+				} else if isPhiish(cmp.Y) {
+					other, less = cmp.X, true
+				}
+			}
+			if other == nil {
+				continue
+			}
+			if oi, isIns := other.(ssa.Instruction); isIns && oi.Block() != nil && li.body[oi.Block().Index] {
+				continue
+			}
+			if _, isInt := intInfoOf(other.Type()); !isInt {
+				continue
+			}
+			ph, ot := phi, other
+			for _, strict := range []bool{true, false} {
+				strict := strict
+				op := map[[2]bool]string{{true, true}: "<", {true, false}: "<=", {false, true}: ">", {false, false}: ">="}[[2]bool{less, strict}]
+				key := autoKey(fr.fn, li.ordinal, ph.Comment+op+ot.Name())
+				if fr.c.V.disabledAuto[key] {
+					continue
+				}
+				out = append(out, func(get func(*ssa.Phi) Term) (Term, string) {
+					x, ok := fr.tryVal(ot)
+					if !ok {
+						return tTrue, "auto[" + key + "]"
+					}
+					return app(SBool, op, get(ph), x), fmt.Sprintf("auto[%s] %s %s %s bound from the loop condition", key, ph.Comment, op, ot.Name())
+				})
+			}
+		}
 		if !okShape || entryConst == nil || dir == 0 {
 			continue
 		}
